@@ -854,6 +854,9 @@ pub fn worker_loop<C>(a: &WorkerArgs, make: &(dyn Fn(u64) -> (C, usize, String, 
                         w.log(json!({"t":"finding","index":idx,"signature":format!("panic|{}|{}", message_class(&msg), frames.first().cloned().unwrap_or(file)),
                             "what":format!("panic: {} (lopdf frames: {})", msg, frames.join(" <- "))}));
                     }
+                    for (sig, what) in crate::props::ORACLE_FINDINGS.with(|f| f.borrow_mut().drain(..).collect::<Vec<_>>()) {
+                        w.log(json!({"t":"finding","index":idx,"signature":sig,"what":what}));
+                    }
                     if let Some((msg, frames)) = o.alloc {
                         w.log(json!({"t":"finding","index":idx,"signature":format!("alloc|allocation unrelated to input size|{}", frames.first().cloned().unwrap_or_default()),
                             "what":format!("{} (lopdf frames: {})", msg, frames.join(" <- "))}));
